@@ -316,9 +316,20 @@ func (et *ExecutingTask) StopStats() {
 
 // Wait till the task finishes and return any error
 func (et *ExecutingTask) Wait() error {
-	return et.rwalk(func(n Node) error {
-		return n.Wait()
-	})
+	// Wait for all nodes at once and report the first failure:
+	// a node that only ends when it is told to (stats) must not hide the failure of another node.
+	errC := make(chan error, len(et.nodes))
+	for _, n := range et.nodes {
+		go func(n Node) {
+			errC <- n.Wait()
+		}(n)
+	}
+	for range et.nodes {
+		if err := <-errC; err != nil {
+			return err
+		}
+	}
+	return nil
 }
 
 // Get a named output.
